@@ -190,7 +190,7 @@ func c10r2(c *an.Ctx) {
 	ok := false
 	for _, cs := range an.CallsTo(se, false, sa.sendPkt) {
 		k, isK := an.ConstInt(an.Arg(cs.Common(), 0))
-		if m, isCall := an.Arg(cs.Common(), 2).(*ssa.Call); isCall && an.IsCallTo(m.Common(), marshalErr) && an.Resolve(m.Common().Args[0]) == ssa.Value(se.Params[1]) && isK && k == kinds["KindError"] {
+		if m, isCall := an.Resolve(an.Arg(cs.Common(), 2)).(*ssa.Call); isCall && an.IsCallTo(m.Common(), marshalErr) && an.Resolve(m.Common().Args[0]) == ssa.Value(se.Params[1]) && isK && k == kinds["KindError"] {
 			if ctl, isC := an.Arg(cs.Common(), 1).(*ssa.Const); isC && ctl.Value.String() == "false" {
 				ok = true
 			}
